@@ -499,7 +499,8 @@ class H2ConnModel:
         self._require_open(interp, obj, sid, fr, "send_headers")
         # outbound header validation may reject what the application supplied
         self._may_fail(interp, fr, "send_headers", [h2.exceptions.ProtocolError])
-        interp.traces.setdefault("h2", []).append(("send_headers", mk_int(sid), args[1]))
+        es = kwargs.get("end_stream", args[2] if len(args) > 2 else False)
+        interp.traces.setdefault("h2", []).append(("send_headers", mk_int(sid), args[1], es))
         return None
 
     def m_reset_stream(self, interp, obj, args, kwargs, fr):
